@@ -1,14 +1,14 @@
 (* Encoders for the correspondence check: a history of host steps on one runtime is turned
    into one flat list of numbers per step:
      [class; #stdout events; events...; host exports map]
-   class: 0 Ok, 1 ECycle, 2 ENoModule, 3 EThrow, 4 ENotFound, 5 EType, 6 EOutside
+   class: 0 Ok, 1 ECycle, 2 ENoModule, 3 EThrow, 4 ENotFound, 5 EType, 6 EOutside, 8 ECompile
    event: 0 m (marker) | 1 <value> (shown value)
    value: 0 n | 1 #entries (k <value>)* | 2 n (string naming n) | 3 n (prelude entry) | 9 (depth cut) *)
 From KV.mod Require Import ModModel.
 Open Scope N_scope.
 
 Definition enc_err (e : err) : N :=
-  match e with ECycle => 1 | ENoModule => 2 | EThrow => 3 | ENotFound => 4 | EType => 5 | EOutside => 6 end.
+  match e with ECycle => 1 | ENoModule => 2 | EThrow => 3 | ENotFound => 4 | EType => 5 | EOutside => 6 | ECompile => 8 end.
 
 Fixpoint enc_value (fuel : nat) (h : list (N * mobj)) (v : value) : list N :=
   match v with
